@@ -268,6 +268,10 @@ func TestC01Datagrams(t *testing.T) {
 			if i == 0 || rapid.IntRange(0, 3).Draw(t, "moveClock") == 0 {
 				s.setClock(drawNow(t, s.M.Offset, "now"))
 			}
+			if i%37 == 36 {
+				// the public surface is compared with the model mid-way too
+				s.crossCheckAPI()
+			}
 			d := w.genDatagram(t)
 			nv, why := w.violated(d.b)
 			v := s.datagram(d.b, d.class)
